@@ -113,7 +113,7 @@ func checkSelectorMembership(c *Ctx, r *Report, rule string) {
 					}
 				}
 				ci := describeCall(cc)
-				if ci.Pkg == "sort" || ci.Pkg == "slices" {
+				if (ci.Pkg == "sort" || ci.Pkg == "slices") && !slicesReadOnly[ci.Name] {
 					for _, a := range cc.Args {
 						x := a
 						if mi, ok := x.(*ssa.MakeInterface); ok {
@@ -404,3 +404,9 @@ func checkGaugeKey(c *Ctx, r *Report) {
 		r.Bad("C06-R3", key, rPos, fmt.Sprintf("collector stores the gauge under Endpoint.%s but the least-connections selector looks it up under Endpoint.%s: every endpoint appears to have 0 connections", wField.Name(), rField.Name()))
 	}
 }
+
+// slicesReadOnly: functions of package slices (and sort) that only read their slice argument.
+var slicesReadOnly = map[string]bool{"Clone": true, "Contains": true, "ContainsFunc": true, "Index": true, "IndexFunc": true,
+	"Equal": true, "EqualFunc": true, "Max": true, "MaxFunc": true, "Min": true, "MinFunc": true, "BinarySearch": true,
+	"BinarySearchFunc": true, "IsSorted": true, "IsSortedFunc": true, "All": true, "Values": true, "Backward": true,
+	"Collect": true, "Sorted": true, "SortedFunc": true, "Concat": true, "SliceIsSorted": true, "Search": true}
